@@ -20,10 +20,6 @@ import (
 func SendServiceUsageRequest(
 	ue *chf_context.ChfUe, sur *charging_datatype.ServiceUsageRequest,
 ) (*charging_datatype.ServiceUsageResponse, error) {
-	// the answer to this request arrives on a channel of its own: an answer nobody waits for any more
-	// is dropped instead of reaching a later request or blocking the handler
-	answer := make(chan *diam.Message, 1)
-	ue.RatingMux.Handle("SUA", HandleSUA(answer))
 	rfDiameter := factory.ChfConfig.Configuration.RfDiameter
 	addr := rfDiameter.HostIPv4 + ":" + strconv.Itoa(rfDiameter.Port)
 	conn, err := ue.RatingClient.DialNetworkTLS(rfDiameter.Protocol, addr, rfDiameter.Tls.Pem, rfDiameter.Tls.Key)
@@ -32,6 +28,11 @@ func SendServiceUsageRequest(
 	}
 	// the connection serves this request only
 	defer conn.Close()
+	// the answer to this request arrives on a channel of its own and is taken from this connection only: an
+	// answer nobody waits for any more - still being delivered by the connection of an earlier request - is
+	// dropped instead of reaching a later request or blocking the handler
+	answer := make(chan *diam.Message, 1)
+	ue.RatingMux.Handle("SUA", HandleSUA(answer, conn))
 
 	meta, ok := smpeer.FromContext(conn.Context())
 	if !ok {
@@ -65,8 +66,12 @@ func SendServiceUsageRequest(
 	}
 }
 
-func HandleSUA(rgChan chan *diam.Message) diam.HandlerFunc {
+func HandleSUA(rgChan chan *diam.Message, from diam.Conn) diam.HandlerFunc {
 	return func(c diam.Conn, m *diam.Message) {
+		if c != from {
+			// read by the connection of another (earlier) request of this subscriber
+			return
+		}
 		logger.RatingLog.Tracef("Received SUA from %s", c.RemoteAddr())
 
 		select {
